@@ -273,6 +273,9 @@ fn enumerate(n: u8, depth: usize, alpha: &[Op], prefix: &[Op], res: &mut SeqResu
 }
 
 fn seq_leg(ctx: &Ctx, n: u8, max_depth: usize) {
+    if vcommon::sched::is_worker() {
+        return;
+    }
     let t0 = Instant::now();
     let alpha = alphabet(n);
     let mut total = SeqResult { sequences: 0, steps: 0, nontrivial: 0, failures: BTreeMap::new() };
@@ -498,6 +501,9 @@ fn loom_child(name: &str, thorough: bool) -> ! {
 }
 
 fn loom_leg(ctx: &Ctx) {
+    if vcommon::sched::is_worker() {
+        return;
+    }
     let t0 = Instant::now();
     let thorough = !ctx.quick();
     let exe = std::env::current_exe().unwrap();
@@ -612,6 +618,72 @@ fn loom_leg(ctx: &Ctx) {
     });
 }
 
+// ------------------------------------------------------------------------------------------
+// Leg as-timeouts (E1): how the agent runtime uses the coordinator
+// ------------------------------------------------------------------------------------------
+
+/// The real agent + runtime under the schedule explorer with scripts in which the (paused) clock
+/// advances by fractions of the inactivity timeout, so that the read, write and HTTP tasks vote,
+/// rescind and reach unanimity at different moments.
+fn as_timeouts_leg(ctx: &Ctx) {
+    use asys::grid::{run_grid, GridSpec};
+    use asys::scripts::*;
+    use asys::world::{Cfg, Mode, Step};
+    let quick = ctx.quick();
+    let w = Step::Wait;
+    // a command for a lane that does not exist: the read task is busy, nothing reaches the write task
+    let noop = || cmd("zz", "0");
+    let mut scripts: Vec<(Vec<(usize, Step)>, usize)> = vec![];
+    let one = |v: Vec<Step>| (sequential(&[v]), 1usize);
+    // the write task votes alone, a later lane event rescinds
+    scripts.push(one(vec![link("v"), cmd("v", "1"), w(6), noop(), w(6), cmd("v", "2")]));
+    scripts.push(one(vec![link("v"), w(6), noop(), w(6), noop(), w(6), cmd("v", "1"), w(6), noop()]));
+    // everybody idle for more than the timeout in the middle of the script
+    scripts.push(one(vec![link("v"), cmd("v", "1"), w(11), cmd("v", "2")]));
+    // votes just before / just after the boundary
+    scripts.push(one(vec![link("v"), cmd("v", "1"), w(9), noop(), w(2), cmd("v", "2"), w(9), noop(), w(2)]));
+    scripts.push(one(vec![sync("m"), act(&["@upd{k:1,v:1}"]), w(5), act(&["@upd{k:2,v:2}"]), w(5), noop(), w(5), act(&["@rem(1)"]), w(5), noop(), w(5)]));
+    // no lane activity at all: only the read task is ever busy
+    scripts.push(one(vec![noop(), w(6), noop(), w(6), noop(), w(6), noop()]));
+    // nothing but a link, then silence
+    scripts.push(one(vec![link("v"), w(6), w(6)]));
+    // the agent's own timers keep the write task busy while the read task is idle
+    scripts.push(one(vec![link("v"), act(&["@laterv{d:6,v:1}"]), w(6), w(5), noop(), w(6), w(6)]));
+    scripts.push(one(vec![link("v"), cmd("v", "1"), act(&["@laterv{d:13,v:2}"]), w(6), noop(), w(6), w(2), w(3), w(6)]));
+    scripts.push(one(vec![link("v"), act(&["@laterv{d:4,v:1}", "@laterv{d:8,v:2}", "@laterv{d:12,v:3}"]), w(5), w(5), w(5), w(5), w(5)]));
+    scripts.push(one(vec![link("v"), act(&["@laterv{d:9,v:1}"]), w(5), noop(), w(5), w(5), noop(), w(5)]));
+    // two remotes: one keeps the read task busy, the other makes lane events
+    let every = if quick { 3 } else { 1 };
+    for (i, s) in interleavings(&[vec![link("v"), w(6), cmd("v", "1")], vec![noop(), w(6), noop()]]).into_iter().enumerate() {
+        if i % every == 0 {
+            scripts.push((s, 2));
+        }
+    }
+    for (i, s) in interleavings(&[vec![link("v"), cmd("v", "1"), w(7)], vec![w(7), sync("v"), cmd("v", "2")]]).into_iter().enumerate() {
+        if i % every == 0 {
+            scripts.push((s, 2));
+        }
+    }
+    let mut cfgs = vec![];
+    for (script, remotes) in &scripts {
+        for (cap, lane_buf) in [(4096usize, 4096usize), (8, 4096), (4096, 8)] {
+            for budget in [2usize, 64] {
+                for mode in [Mode::Eager, Mode::Burst, Mode::SlowRead] {
+                    let mut c = Cfg::basic(script.clone(), *remotes);
+                    c.cap = cap;
+                    c.lane_buf = lane_buf;
+                    c.budget = budget;
+                    c.mode = mode;
+                    c.ticks = 2;
+                    c.final_stop = false;
+                    cfgs.push(c);
+                }
+            }
+        }
+    }
+    run_grid(ctx, GridSpec { name: "as-timeouts-d1".into(), cfgs, bound: if quick { 1 } else { 2 }, max_exec_per_cfg: if quick { 20_000 } else { 500_000 }, wall_cap_s: if quick { 15.0 } else { 900.0 } });
+}
+
 fn main() {
     let args: Vec<String> = std::env::args().collect();
     if args.len() >= 3 && args[1] == "--loom-scenario" {
@@ -619,9 +691,12 @@ fn main() {
         loom_child(&args[2], thorough);
     }
     let ctx = Ctx::from_env("C17");
+    asys::world::set_checker(asys::oracle::check_c17_system);
     if let Some(r) = ctx.replay_request() {
         let d = &r["detail"];
-        if r["leg"] == "seq" {
+        if r["leg"].as_str().unwrap_or("").starts_with("as-") {
+            asys::grid::replay(&ctx, &r);
+        } else if r["leg"] == "seq" {
             let n = d["parties"].as_u64().unwrap() as u8;
             let ops: Vec<Op> = d["ops"].as_array().unwrap().iter().map(|s| Op::parse(s.as_str().unwrap()).unwrap()).collect();
             if let Err((law, _, expl)) = run_seq(n, &ops) {
@@ -642,6 +717,8 @@ fn main() {
     seq_leg(&ctx, 2, d2);
     seq_leg(&ctx, 3, d3);
     loom_leg(&ctx);
+    as_timeouts_leg(&ctx);
+    ctx.assume("system leg: the clock moves only while the runtime has nothing to do (Step::Wait) and by full ticks at quiescence; the HTTP task never receives a request");
     ctx.assume("loom models the C11 memory orderings of the AtomicU8; the AtomicWaker of the futures crate is replaced by a mutex-protected waker cell (its register/wake contract, not its implementation)");
     ctx.assume("Voter is !Sync: each voter is used by one thread (Cell<bool> stays a plain cell)");
     ctx.finish(
